@@ -240,6 +240,13 @@ def scenario_grow(sseed, kind):
                 if kind != "hyperband":
                     over["max_trials"] = R.randint(8, 20)
                 tags["focus-retry-growth"] += 1
+            if R.random() < 0.3:
+                # "tune a subset": entries the build function declares are reported but not tuned - the search space
+                # stays as it is, so no configuration may ever be started twice
+                over.update(tune_new_entries=False, allow_new_entries=True)
+                tags["grow-not-tuned"] += 1
+            not_tuned = over.get("tune_new_entries") is False
+            reported = []
             o = gen.make_oracle(R, kind, specs, d, **over)
             starts = {}
             disc = [0]
@@ -265,6 +272,8 @@ def scenario_grow(sseed, kind):
 
             def on_end(o_, t, oc):
                 shim.log.clear()
+                if not_tuned:
+                    reported.extend(p for p in t.hyperparameters.space if not o_.hyperparameters._exists(p.name, p.conditions))
 
             def on_create(o_, w, t):
                 unseeded = [p for s_, p in shim.log if s_ is None]
@@ -275,7 +284,8 @@ def scenario_grow(sseed, kind):
                                                  f"(round {t.hyperparameters.values.get('tuner/round')})", {"tag": "unseeded-create", "kind": kind}))
                 if t.status != "RUNNING" or t.trial_id in seen_ids:
                     return
-                check_values(t)
+                # a promoted trial inherits what its parent reported; in a not-tuned search those entries are not in the oracle's space
+                check_values(t, extra=reported if t.hyperparameters.values.get("tuner/round", 0) else ())
                 nontuner = lambda vs: {k: v for k, v in vs.items() if not k.startswith("tuner/")}
                 if t.hyperparameters.values.get("tuner/round", 0) == 0 and not (
                         kind == "bayes" and len([x for x in o_.trials.values() if x.status == "COMPLETED"]) >= (o_.num_initial_points or 3)):
